@@ -375,7 +375,9 @@ def bounded(ctx):
         distinct.add(("first-call", cname))
         if "error" in got:
             viol.append(dict(name="first_call_%s" % cname, what="fresh interpreter, %s.%s: the probe failed: %s" % (mod, cname, got["error"]), case=dict(cls=cname, record=text)))
-        elif got["first"] != got["later"] or got["valid"] is not True or got["first"] != cname:
+        elif got["valid"] is not True and got["first"] == got["later"]:
+            continue      # generator artefact (the drawn member is not accepted by its own class, e.g. a further site): nothing to compare
+        elif got["first"] != got["later"] or got["first"] != cname:
             viol.append(dict(name="first_call_%s" % cname, what="fresh interpreter: %s.characterize(member) as the very first call gives %s, after typing the record "
                              "with the class it gives %s (the class accepts the record: %r)" % (cname, got["first"], got["later"], got["valid"]),
                              case=dict(cls=cname, record=text)))
